@@ -5,7 +5,7 @@ import Upd.IngestProofs
 Model: `Upd.ingest nm order x` (Upd/Ingest.lean) — `indexIngest` of internal/store/store.go with `indexValidReferrer`,
 `referrerListDedup`, `repoGetIndex`, over the `types.Index` model `Upd.Index`, as called by `memRepo.repoInit` and
 `dirRepo.indexLoad`; it mirrors the code with the repairs F21 (lock, invisible here), F23 (an adopted fallback index is
-remembered), F30 (an existing response blob is not an error) and F33 (the child scan starts from the converted list).  `nm` is the digest of a regenerated response
+remembered), F30 (an existing response blob is not an error) and F34 (the child scan starts from the converted list).  `nm` is the digest of a regenerated response
 document, `order` the order in which Go iterates over the map `addResp`.  The model is tied to the code by the
 `ingest` correspondence profile (harness/inpkg/store/ingest_harness_test.go, lean/Drivers/IngestMain.lean).
 
@@ -147,7 +147,7 @@ theorem convert_idem (nm nm' : List Desc → String) (order order' : List (Strin
 
 /-- **convert_idem_children.** … and the same child records: what `GetDesc` finds among the children of listed
     indexes right after the conversion is what it finds after the saved index has been loaded again (the repaired
-    `indexIngest` scans the manifests as listed after the conversion, patches/F33-*; before that repair children of
+    `indexIngest` scans the manifests as listed after the conversion, patches/F34-*; before that repair children of
     a regenerated response could be missing until the next restart). -/
 theorem convert_idem_children (nm nm' : List Desc → String)
     (order order' : List (String × List Desc) → List (String × List Desc)) (horder : ∀ l, (order l).Perm l)
